@@ -28,8 +28,8 @@ theorem presentation_independent (ext : Ext) (x y : SVal) (b bx bY : B) (dt : Da
     (hx : noRaw x = true) (hy : noRaw y = true) (hwf : WFB b) (hsafe : Safe b) (hshape : Shape b dt n md)
     (hsame : interpDT ext dt n md x = interpDT ext dt n md y)
     (h1 : push ext b x = .ok bx) (h2 : push ext b y = .ok bY) : dec bx = dec bY := by
-  obtain ⟨_, _, _, lv1, hd1, hi1⟩ := C01.push_interp ext x b bx dt n md hx hwf hsafe hshape h1
-  obtain ⟨_, _, _, lv2, hd2, hi2⟩ := C01.push_interp ext y b bY dt n md hy hwf hsafe hshape h2
+  obtain ⟨_, _, _, lv1, hd1, hi1⟩ := C01.push_interp ext x b bx dt n md (noRaw_ssa x hx) (Or.inl hx) hwf hsafe hshape h1
+  obtain ⟨_, _, _, lv2, hd2, hi2⟩ := C01.push_interp ext y b bY dt n md (noRaw_ssa y hy) (Or.inl hy) hwf hsafe hshape h2
   rw [hsame, hi2] at hi1
   cases hi1
   rw [hd1, hd2]
@@ -40,8 +40,8 @@ theorem runRows_presentation_independent (ext : Ext) (fields : List Field) (rows
     (hraw1 : ∀ x ∈ rows1, noRaw x = true) (hraw2 : ∀ x ∈ rows2, noRaw x = true)
     (hsame : rows1.map (interpRow ext fields) = rows2.map (interpRow ext fields))
     (h1 : runRows ext fields rows1 = .ok r1) (h2 : runRows ext fields rows2 = .ok r2) : dec r1 = dec r2 := by
-  obtain ⟨a1, _, _⟩ := C01.runRows_interp ext fields rows1 root0 r1 hc h0 hsafe hraw1 h1
-  obtain ⟨a2, _, _⟩ := C01.runRows_interp ext fields rows2 root0 r2 hc h0 hsafe hraw2 h2
+  obtain ⟨a1, _, _⟩ := C01.runRows_interp ext fields rows1 root0 r1 hc h0 hsafe (fun x hx => noRaw_ssa x (hraw1 x hx)) (Or.inl hraw1) h1
+  obtain ⟨a2, _, _⟩ := C01.runRows_interp ext fields rows2 root0 r2 hc h0 hsafe (fun x hx => noRaw_ssa x (hraw2 x hx)) (Or.inl hraw2) h2
   exact go _ _ _ _ a1 a2 hsame
 where
   go : ∀ (l1 : List LVal) (rows1 : List SVal) (l2 : List LVal) (rows2 : List SVal),
